@@ -13,7 +13,7 @@
 //!         1: client given no --tls-ca (system roots) -> reached
 //!         2: server given a blank client CA        -> 1 if the identity can be built (must fail: 0)
 //!         3: a good client CA, client certificate under root A only (the system store) -> reached (must not be)
-//! case 17 5 cert n: the real server_main with a client CA, identity replaced n times at run time the way an
+//! case 17 5 cert n: the real server_main with a client CA and two listening addresses, identity replaced n times at run time the way an
 //!           operator does it (files rewritten, SIGUSR1 to the process); before and after every reload:
 //!   result per round: reached_with_good_client_cert cert_seen reached_without_client_cert asked
 //! case 17 3 url_host(0 127.0.0.1, 1 localhost) hostname(0 none, 1 localhost, 2 other.example)
@@ -463,10 +463,12 @@ async fn signal_case(pki: &Pki, tag: &str, c: &[u64]) -> Vec<u64> {
     let (certp, keyp, cap) = (p(d, &format!("sig-{tag}.pem")), p(d, &format!("sig-{tag}.key")), p(d, "clientca.pem"));
     std::fs::copy(d.join(format!("srv{cert}.pem")), &certp).unwrap();
     std::fs::copy(d.join(format!("srv{cert}.key")), &keyp).unwrap();
-    let port = alloc_port();
+    // the server listens on two addresses (--host twice): every listener must carry the same, current identity and the
+    // same client-certificate requirement; the rounds alternate between the two, the probes after a failed reload use the other
+    let ports = [alloc_port(), alloc_port()];
     let args: &'static ServerArgs = Box::leak(Box::new(ServerArgs {
-        host: vec!["127.0.0.1".to_string()],
-        port: vec![port],
+        host: vec!["127.0.0.1".to_string(), "127.0.0.1".to_string()],
+        port: ports.to_vec(),
         tls_cert: Some(certp.clone()),
         tls_key: Some(keyp.clone()),
         tls_ca: Some(cap),
@@ -474,7 +476,7 @@ async fn signal_case(pki: &Pki, tag: &str, c: &[u64]) -> Vec<u64> {
     }));
     let server = tokio::spawn(rusty_penguin_lib::server::server_main(args));
     for _ in 0..300 {
-        if TcpStream::connect(("127.0.0.1", port)).await.is_ok() {
+        if TcpStream::connect(("127.0.0.1", ports[0])).await.is_ok() && TcpStream::connect(("127.0.0.1", ports[1])).await.is_ok() {
             break;
         }
         tokio::time::sleep(Duration::from_millis(10)).await;
@@ -482,6 +484,7 @@ async fn signal_case(pki: &Pki, tag: &str, c: &[u64]) -> Vec<u64> {
     let (good_c, good_k) = (p(d, "cli1.pem"), p(d, "cli1.key"));
     let mut out = vec![];
     for round in 0..=n {
+        let port = ports[(round % 2) as usize];
         // with the right client certificate
         let (mut reached, mut seen) = (0u64, 9u64);
         if let Ok(tcp) = TcpStream::connect(("127.0.0.1", port)).await {
@@ -504,6 +507,7 @@ async fn signal_case(pki: &Pki, tag: &str, c: &[u64]) -> Vec<u64> {
             std::fs::write(&certp, b"-----BEGIN GARBAGE-----\nnot a certificate\n").unwrap();
             let _ = std::process::Command::new("sh").arg("-c").arg(format!("kill -USR1 {}", std::process::id())).status();
             tokio::time::sleep(Duration::from_millis(200)).await;
+            let port = ports[((round + 1) % 2) as usize];
             let (mut reached, mut seen) = (0u64, 9u64);
             if let Ok(tcp) = TcpStream::connect(("127.0.0.1", port)).await {
                 if let Ok(mut s) = tls_connect(tcp, "localhost", Some(&good_c), Some(&good_k), None, true).await {
